@@ -20,7 +20,7 @@ from ..vloop import virtual_world
 CLASSES = ("genuine", "forged", "wrongkey", "wrongsid", "nested", "diag", "plainresp", "plain")
 
 
-def run_hist(history, pre=(), seed=0):
+def run_hist(history, pre=(), seed=0, second=None):
     """history: list of (cls, seq) delivered after connect();  pre: list delivered before the handshake (no key yet: plain frames / wrappers)"""
     from cryptography.hazmat.primitives import serialization
     from cryptography.hazmat.primitives.asymmetric.x25519 import X25519PrivateKey, X25519PublicKey
@@ -45,6 +45,9 @@ def run_hist(history, pre=(), seed=0):
     ev = []
     values = sorted({s for _, s in list(history) + list(pre)} | {0})
     rank = {v: i for i, v in enumerate(values)}
+    values = sorted(set(values) | {2**40})
+    rank = {v: i for i, v in enumerate(values)}
+    phase = [1]
     with virtual_world(seed) as loop:
         srv = Srv()
 
@@ -122,6 +125,8 @@ def run_hist(history, pre=(), seed=0):
                     dk = derive_device_authentication_password("dev")
                     mac_cbc = calculate_message_authentication_code_cbc(key=dk, additional_data=bytes.fromhex("061009520038") + srv.session_id.to_bytes(2, "big") + x)
                     _, mac = encrypt_data_ctr(key=dk, counter_0=COUNTER_0_HANDSHAKE, mac_cbc=mac_cbc)
+                    if phase[0] == 2 and second == "forged":      # the second handshake is answered by somebody who does not know the device password
+                        mac = bytes(b ^ 0x55 for b in mac)
                     raw = KNXIPFrame.init_from_body(SessionResponse(secure_session_id=srv.session_id, ecdh_server_public_key=pub, message_authentication_code=mac)).to_knx()
                     loop.inject(feed, raw, "plainresp", 0)
                 elif isinstance(b, SecureWrapper):
@@ -149,9 +154,35 @@ def run_hist(history, pre=(), seed=0):
             except Exception as ex:  # noqa: BLE001
                 ev.append({"ev": "send_raised:" + type(ex).__name__})
             await asyncio.sleep(55)              # silence: a keep-alive has to go out, wrapped
+            old_frame = bytes(wrap(inner(), 2**40))      # a frame of this session, wrapped with its key: to be replayed later
             sess.stop()
             ev.append({"ev": "stopped"})
             await asyncio.sleep(1)
+            if second is not None:
+                # the same object connects again; with a forged SessionResponse the connect must fail, and the session must not fall back
+                # to the key of the previous session: a replayed frame of that session is dropped, nothing is sent wrapped with the old key
+                phase[0] = 2
+                try:
+                    await sess.connect()
+                    ok2 = True
+                except Exception:  # noqa: BLE001
+                    ok2 = False
+                if second == "forged":
+                    ev.append({"ev": "connect2_failed"} if not ok2 else {"ev": "connect2_accepted_forged_response"})
+                    feed(old_frame, "genuine", 2**40)
+                    try:
+                        sess.stop()
+                    except Exception as ex:  # noqa: BLE001
+                        ev.append({"ev": "stop_raised:" + type(ex).__name__})
+                    ev.append({"ev": "stopped"})
+                else:
+                    for cls, seq in history[:3]:
+                        loop.inject(feed, build(cls, seq), cls, seq)
+                        await asyncio.sleep(0.01)
+                    feed(old_frame, "wrongkey", 2**40)        # a frame of the previous session: another key now
+                    sess.stop()
+                    ev.append({"ev": "stopped"})
+                await asyncio.sleep(1)
 
         loop.run_until_complete(main())
     return ev
@@ -185,15 +216,17 @@ def run(ck):
     ck.assume("the simulated server uses the library's primitives for X25519 / PBKDF2 / CCM (their octets are the subject of C28); frames are classified by how they were built")
     tlc.mc(ck, "io/SecSession_MC", require_actions=False)
     ps = plans(ck)
-    traces = [run_hist(h, pre, ck.seed) for h, pre in ps]
+    # every third history is followed by a second connect of the same object: answered by a forger, or a regular new session
+    second = [None if i % 3 else ("forged" if i % 2 else "new") for i in range(len(ps))]
+    traces = [run_hist(h, pre, ck.seed, second[i]) for i, (h, pre) in enumerate(ps)]
     res = tlc.batch(ck, "io/SecSession_Trace", traces, min_per_shard=40)
     for idx, info in sorted(res.bad.items()):
         t = traces[idx]
         l = info if isinstance(info, int) else 0
         e = t[l - 1] if 0 < l <= len(t) else None
-        ck.violation({"history": [list(x) for x in ps[idx][0]][:10], "pre": [list(x) for x in ps[idx][1]], "rejected": e},
+        ck.violation({"history": [list(x) for x in ps[idx][0]][:10], "pre": [list(x) for x in ps[idx][1]], "rejected": e, "second": second[idx]},
                      f"secure session trace rejected at event {l}: {e}; before {t[max(0, l - 6):l - 1]}; history {ps[idx][0][:10]} pre {ps[idx][1]}",
-                     {"history": ps[idx][0], "pre": ps[idx][1], "trace": t, "rejected_at": l})
+                     {"history": ps[idx][0], "pre": ps[idx][1], "second": second[idx], "trace": t, "rejected_at": l})
     muts = []
     for i, t in enumerate(traces):
         if i in res.bad or len(muts) >= 120:
@@ -224,7 +257,7 @@ def replay(ck, path):
     import json
 
     d = json.loads(open(path).read())["replay"]
-    t = run_hist([tuple(x) for x in d["history"]], [tuple(x) for x in d["pre"]], ck.seed)
+    t = run_hist([tuple(x) for x in d["history"]], [tuple(x) for x in d["pre"]], ck.seed, d.get("second"))
     res = tlc.batch(ck, "io/SecSession_Trace", [t])
     print("trace:", t, "\nrejected at:", res.bad.get(0))
     return 1 if res.bad else 0
